@@ -3,6 +3,8 @@
 pub const TARGETS: &[FnTarget] = &[
     FnTarget { file: "utils.rs", owner: None, name: "validate_integer", lean: "validate_integer", havoc: &[], ignore_cfg_features: &[] },
     FnTarget { file: "utils.rs", owner: None, name: "hash_number", lean: "hash_number", havoc: &[], ignore_cfg_features: &[] },
+    FnTarget { file: "value.rs", owner: Some("Value"), name: "into_bool", lean: "into_bool", havoc: &[], ignore_cfg_features: &[] },
+    FnTarget { file: "value.rs", owner: Some("Value"), name: "try_as_number", lean: "try_as_number", havoc: &[], ignore_cfg_features: &[] },
     FnTarget { file: "value.rs", owner: Some("Value"), name: "try_as_bounded_index", lean: "try_as_bounded_index", havoc: &[], ignore_cfg_features: &[] },
     FnTarget { file: "object.rs", owner: Some("ObjRange"), name: "make_bounded_range", lean: "make_bounded_range", havoc: &[], ignore_cfg_features: &[] },
     FnTarget { file: "object.rs", owner: Some("ObjRangeIter"), name: "new", lean: "range_iter_new", havoc: &[], ignore_cfg_features: &[] },
@@ -24,6 +26,17 @@ pub const TARGETS: &[FnTarget] = &[
     FnTarget { file: "compiler.rs", owner: Some("Compiler"), name: "patch_jump", lean: "patch_jump", havoc: &[], ignore_cfg_features: &[] },
     FnTarget { file: "compiler.rs", owner: Some("Parser"), name: "emit_loop", lean: "emit_loop", havoc: &[], ignore_cfg_features: &[] },
     FnTarget { file: "compiler.rs", owner: Some("Parser"), name: "patch_offset_at", lean: "patch_offset_at", havoc: &[], ignore_cfg_features: &[] },
+    FnTarget { file: "vm.rs", owner: Some("Vm"), name: "read_constant", lean: "vm_read_constant", havoc: &[], ignore_cfg_features: &[] },
+    FnTarget { file: "vm.rs", owner: Some("Vm"), name: "get_local_impl", lean: "vm_get_local_impl", havoc: &[], ignore_cfg_features: &[] },
+    FnTarget { file: "vm.rs", owner: Some("Vm"), name: "set_local_impl", lean: "vm_set_local_impl", havoc: &[], ignore_cfg_features: &[] },
+    FnTarget { file: "vm.rs", owner: Some("Vm"), name: "equal_impl", lean: "vm_equal_impl", havoc: &[], ignore_cfg_features: &[] },
+    FnTarget { file: "vm.rs", owner: Some("Vm"), name: "binary_op_impl", lean: "vm_binary_op_impl", havoc: &[], ignore_cfg_features: &[] },
+    FnTarget { file: "vm.rs", owner: Some("Vm"), name: "logical_not_impl", lean: "vm_logical_not_impl", havoc: &[], ignore_cfg_features: &[] },
+    FnTarget { file: "vm.rs", owner: Some("Vm"), name: "bitwise_not_impl", lean: "vm_bitwise_not_impl", havoc: &[], ignore_cfg_features: &[] },
+    FnTarget { file: "vm.rs", owner: Some("Vm"), name: "negate_impl", lean: "vm_negate_impl", havoc: &[], ignore_cfg_features: &[] },
+    FnTarget { file: "vm.rs", owner: Some("Vm"), name: "jump_impl", lean: "vm_jump_impl", havoc: &[], ignore_cfg_features: &[] },
+    FnTarget { file: "vm.rs", owner: Some("Vm"), name: "jump_if_false_impl", lean: "vm_jump_if_false_impl", havoc: &[], ignore_cfg_features: &[] },
+    FnTarget { file: "vm.rs", owner: Some("Vm"), name: "loop_impl", lean: "vm_loop_impl", havoc: &[], ignore_cfg_features: &[] },
 ];
 
 pub struct FnBodies {
@@ -147,6 +160,7 @@ fn translate_one(srcs: &[Src], db: &TypeDb, consts: &BTreeMap<String, i128>, t: 
             loop_depth: 0,
             epoch: 0,
             struct_params: BTreeMap::new(),
+            vm_mode: owner.as_deref() == Some("Vm"),
         };
         let _ = cx.srcs;
         // enum-valued `impl From<usize> for Precedence`: the self type is the enum
@@ -175,7 +189,10 @@ fn translate_one(srcs: &[Src], db: &TypeDb, consts: &BTreeMap<String, i128>, t: 
                 syn::FnArg::Receiver(_) => {}
                 syn::FnArg::Typed(pt) => {
                     let (n, _) = cx.simple_pat(&pt.pat)?;
-                    let ty = cx.syn_ty(&pt.ty);
+                    let mut ty = cx.syn_ty(&pt.ty);
+                    if compact(&toks(&*pt.ty)) == "fn(f64,f64)->Value" {
+                        ty = LT::OpFn;
+                    }
                     if matches!(ty, LT::Struct(_)) {
                         // an object parameter: its fields are read as places `<param>.<field>` (inputs of the Lean function)
                         cx.struct_params.insert(n.clone(), convert_type(&pt.ty));
@@ -198,6 +215,9 @@ fn translate_one(srcs: &[Src], db: &TypeDb, consts: &BTreeMap<String, i128>, t: 
                 other => other,
             };
             if let Some(p) = cx.path_of(base) {
+                if cx.vm_mode && vm_place(&p).is_some() {
+                    continue;
+                }
                 if p.starts_with("self") && !cx.written.contains(&p) {
                     cx.written.push(p);
                 }
@@ -238,6 +258,9 @@ fn translate_one(srcs: &[Src], db: &TypeDb, consts: &BTreeMap<String, i128>, t: 
         if cx.has_effects {
             out_ty.push("(List Rs.Eff)".into());
         }
+        if cx.vm_mode {
+            out_ty.push("Rs.Vm".into());
+        }
         let out_text = if out_ty.len() == 1 { out_ty[0].clone() } else { format!("({})", out_ty.join(" × ")) };
         let mut sigtext = String::new();
         let mut doc = format!("/-- `{}` of {} (translated by xlate).\n", item, t.file);
@@ -251,6 +274,10 @@ fn translate_one(srcs: &[Src], db: &TypeDb, consts: &BTreeMap<String, i128>, t: 
         for (n, ty, note) in &cx.inputs {
             sigtext.push_str(&format!(" ({} : {})", n, ty.lean()));
             doc.push_str(&format!("  {} : {}\n", n, note));
+        }
+        if cx.vm_mode {
+            sigtext.push_str(" (vm_ : Rs.Vm)");
+            doc.push_str("  vm_ : the interpreter state the method runs on (operand stack, ip, constants, frame base); answers (return value, state afterwards)\n");
         }
         for (n, text) in &cx.cfg_inputs {
             sigtext.push_str(&format!(" ({} : Bool)", n));
@@ -267,9 +294,10 @@ fn translate_one(srcs: &[Src], db: &TypeDb, consts: &BTreeMap<String, i128>, t: 
         doc.push_str("-/\n");
         let eff_init = if cx.has_effects { "let effs_ : List Rs.Eff := [];\n  " } else { "" };
         acc.defs.push_str(&format!("\n{}def {}{} : Rs.M {} :=\n  {}{}\n", doc, t.lean, sigtext, out_text, eff_init, body));
-        let plain = cx.inputs.is_empty() && cx.written.is_empty() && !cx.has_effects && cx.cfg_inputs.is_empty() && !cx.loop_fuel;
+        let plain = cx.inputs.is_empty() && cx.written.is_empty() && !cx.has_effects && cx.cfg_inputs.is_empty() && !cx.loop_fuel && !cx.vm_mode;
+        let self_only = cx.inputs.len() == 1 && cx.inputs[0].0 == "self" && cx.written.is_empty() && !cx.has_effects && cx.cfg_inputs.is_empty() && !cx.loop_fuel && !cx.vm_mode;
         let key = t.name.to_string();
-        acc.callees.insert(key, Sig { lean: t.lean.to_string(), params: params.iter().map(|p| p.1.clone()).collect(), ret: cx.ret_ty.clone(), plain });
+        acc.callees.insert(key, Sig { lean: t.lean.to_string(), params: params.iter().map(|p| p.1.clone()).collect(), ret: cx.ret_ty.clone(), plain, self_only });
         acc.enums.extend(cx.enums_used.iter().cloned());
         acc.accessors.extend(cx.accessors.iter().cloned());
         acc.names.push(t.lean.to_string());
@@ -435,6 +463,7 @@ fn new_cx<'a>(
         loop_depth: 0,
         epoch: 0,
         struct_params: BTreeMap::new(),
+        vm_mode: false,
     }
 }
 
